@@ -377,6 +377,10 @@ def items(tier):
         add("general-%s-ndof2-symelmat" % tag, which="general", mesh=mesh, ndof=2, symmetric_elmat=True,
             csr=True)
         add("general-%s-ndof1-bc0" % tag, which="general", mesh=mesh, ndof=1, bc=[0])        # the set {0}
+        if mesh == (1, 1, 1):
+            # a 3-D mesh with more than one element in y AND z (element numbering k*nely*nelx + j*nelx + i), general matrix
+            add("general-1x2x2-ndof1", which="general", mesh=(1, 2, 2), ndof=1)
+            add("poisson-1x2x2", which="poisson", mesh=(1, 2, 2))
         add("poisson-%s-bc0-csr" % tag, which="poisson", mesh=mesh, bc=[0], csr=True)
         add("general-%s-ndof1-bc1-again" % tag, which="general", mesh=mesh, ndof=1, bc=_bcsets(M, 1)["one"], again=True)
         add("general-%s-ndof2-const-again" % tag, which="general", mesh=mesh, ndof=2, add_constant=True, again=True)
